@@ -27,10 +27,12 @@ def check(ctx):
                 raise NoVerdict("sanity: TLC did not reject Bug=%s" % b)
             bugs_caught.append(b)
     results, trace_files = {}, []
+    renv, rdir = race_env(ctx, "free")
     def drive(binary, mode, extra):
         tf = ctx.path("traces-%s.ndjson" % mode)
         out = ctx.path("result-%s.json" % mode)
-        run_driver(ctx, [binary, "-mode", mode, "-cases", cases, "-traces", tf, "-out", out] + extra, timeout=3000)
+        run_driver(ctx, [binary, "-mode", mode, "-cases", cases, "-traces", tf, "-out", out] + extra, timeout=3000,
+                   env=renv if mode == "free" else None)
         results[mode] = load_result(out)
         trace_files.append(tf)
     drive(drv, "replay", [])
@@ -38,7 +40,7 @@ def check(ctx):
     drive(drv, "random", ["-runs", "3000" if quick else "100000"])
     drive(free, "free", ["-runs", "2000" if quick else "50000"])
     recs, bad, vres = validate_traces(ctx, "parcache", "Trace_ParCache.tla", "Trace_ParCache.cfg", trace_files)
-    violations = []
+    violations = race_violations(rdir, "free runs of the unsubstituted par.Cache")
     for idx, invs in sorted(bad.items()):
         rec = json.loads(recs[idx - 1])
         evs = " ".join("%s(%s,%s,%s)" % (e["e"], e["a"], e["k"], e["v"]) for e in rec["events"])
